@@ -335,14 +335,21 @@ func (s *state) evalPrint(node *ast.PrintNode) {
 	var escapeHtml = s.autoescape != ast.AutoescapeOff
 	var result = s.val
 
-	for _, directiveName := range ObligatoryPrintDirectiveNames {
-		node.Directives = append(node.Directives, &ast.PrintDirectiveNode{
-			Pos:  node.Position(),
-			Name: directiveName,
-		})
+	// The obligatory directives are added to a list private to this print: the
+	// node is shared by every render of the bundle and must not change.
+	var directives = node.Directives
+	if len(ObligatoryPrintDirectiveNames) > 0 {
+		directives = make([]*ast.PrintDirectiveNode, len(node.Directives), len(node.Directives)+len(ObligatoryPrintDirectiveNames))
+		copy(directives, node.Directives)
+		for _, directiveName := range ObligatoryPrintDirectiveNames {
+			directives = append(directives, &ast.PrintDirectiveNode{
+				Pos:  node.Position(),
+				Name: directiveName,
+			})
+		}
 	}
 
-	for _, directiveNode := range node.Directives {
+	for _, directiveNode := range directives {
 		var directive, ok = PrintDirectives[directiveNode.Name]
 		if !ok {
 			s.errorf("Print directive %q does not exist", directiveNode.Name)
